@@ -23,6 +23,9 @@ pub struct Case {
 }
 
 fn enumerate(_tier: Tier, idx: u32, of: u32, cx: &mut Cx) -> CaseResult {
+    if crate::probes::mine(idx, of) {
+        probe(cx)?;
+    }
     let (idx, of) = (idx as usize, of as usize);
     let alphabet: Vec<&str> = ALPHABET.iter().copied().chain(["éa", "日", "ab"]).collect();
     let u: Vec<Apath> = universe(&alphabet, 3).into_iter().map(Apath::from).collect();
@@ -215,11 +218,59 @@ fn run(case: &Case, cx: &mut Cx) -> CaseResult {
     Ok(())
 }
 
+/// Scale probe (see probes.rs): subtree selection on a version with 10 015 index hunks.
+fn probe(cx: &mut Cx) -> CaseResult {
+    let (opts, tree) = crate::probes::many_hunks_tree(10_012);
+    let sub = cx.dir("many-hunks");
+    std::fs::create_dir_all(sub.join("r")).unwrap();
+    let src = sub.join("src");
+    let arch = sub.join("arch");
+    tree::materialise(&tree, &src);
+    ensure!(ops::create_archive(&arch).clean(), "C12/probe-setup", "create");
+    let b = ops::backup(&arch, &None, &src, opts, &[]);
+    ensure!(!ops::backup_reported_error(&b), "C12/probe-setup", "{}", b.describe());
+    let full = ops::list_entries(&arch, &None, &Sel::Band(0), "/", &[], 100_000);
+    ensure!(full.clean(), "C12/probe-many-hunks/list-error", "{}", full.describe());
+    let full = full.result.unwrap();
+    for s in ["/w1", "/w0/f00010", "/w", "/w1/"] {
+        if !crate::format::ref_valid(s) {
+            continue;
+        }
+        crate::engine::heartbeat();
+        let l = ops::list_entries(&arch, &None, &Sel::Band(0), s, &[], 100_000);
+        ensure!(l.clean(), "C12/probe-many-hunks/list-error", "{}", l.describe());
+        let got: Vec<String> = l.result.unwrap().iter().map(|e| e.apath.to_string()).collect();
+        let want: Vec<String> = full.iter().filter(|e| under(s, &e.apath)).map(|e| e.apath.to_string()).collect();
+        ensure!(
+            got == want,
+            "C12/subtree-listing/probe-many-hunks",
+            "subtree {s:?}: {} entries listed, {} expected; first difference {:?}",
+            got.len(),
+            want.len(),
+            got.iter().zip(want.iter()).find(|(a, b)| a != b)
+        );
+        cx.add_evals(1);
+        cx.inner_nontrivial += 1;
+    }
+    crate::engine::heartbeat();
+    let dest = sub.join("r").join("w1");
+    let r = ops::restore(&arch, &None, &dest, &Sel::Band(0), Some("/w1"), &[], false);
+    ensure!(r.clean(), "C12/probe-many-hunks/restore-error", "{}", r.describe());
+    let snap = tree::snapshot(&dest);
+    let want: tree::Snapshot = tree::expected(&tree).into_iter().filter(|(p, _)| under("/w1", p)).collect();
+    let got: tree::Snapshot = snap.into_iter().filter(|(p, _)| p != "/").collect();
+    if let Some((field, msg)) = tree::first_diff(&want, &got, CmpOpts::restore()) {
+        fail!(format!("C12/subtree-restore-diff/{field}/probe-many-hunks"), "{msg}");
+    }
+    crate::engine::force_remove(&sub);
+    Ok(())
+}
+
 pub fn prop() -> Prop<Case> {
     Prop {
         id: "C12",
         level: "exploration",
-        rule: "enumeration: is_prefix_of vs byte-wise whole-component containment on every ordered pair of the depth<=3 universe over {a, a., a-, 'a b', b, é, .x, ~, éa, 日, ab}; generated: (options, tree with multi-byte and mutually-extending sibling names) backed up, then for S = every entry plus generated absent paths: listing(S) == full listing filtered by containment (entry-for-entry), and for S = every directory: restore(S) creates exactly the paths under S (+ bare ancestors) with attributes identical to the full restore; in 40% of cases a second backup after generated edits is interrupted and the listing relation is also checked on the stitched version for every path of either version. Non-trivial = some S is non-ASCII or has an entry that textually extends it without being under it; distinct by case hash / by construction for enumerated pairs",
+        rule: "enumeration: is_prefix_of vs byte-wise whole-component containment on every ordered pair of the depth<=3 universe over {a, a., a-, 'a b', b, é, .x, ~, éa, 日, ab}; generated: (options, tree with multi-byte and mutually-extending sibling names) backed up, then for S = every entry plus generated absent paths: listing(S) == full listing filtered by containment (entry-for-entry), and for S = every directory: restore(S) creates exactly the paths under S (+ bare ancestors) with attributes identical to the full restore; in 40% of cases a second backup after generated edits is interrupted and the listing relation is also checked on the stitched version for every path of either version. Non-trivial = some S is non-ASCII or has an entry that textually extends it without being under it; distinct by case hash / by construction for enumerated pairs; plus one fixed scale probe (listing and restoring a subtree of a 10 015-hunk version)",
         assumptions: &["containment oracle is a byte-slice comparison independent of src/apath.rs"],
         cases: |t| t.pick(1500, 60_000),
         strategy,
